@@ -213,6 +213,9 @@ def is_self_attr(n, names=None):
 def cond(e):
     """Translate a test expression; returns a Coq term of type cond, or None when the expression
     mentions no tracked state (an 'untracked' condition)."""
+    if isinstance(e, ast.Call) and isinstance(e.func, ast.Name) and e.func.id == 'bool' and len(e.args) == 1 \
+            and not e.keywords:
+        return cond(e.args[0])
     if isinstance(e, ast.IfExp):
         r = pynorm.nnf(e)
         if isinstance(r, ast.IfExp):
@@ -425,6 +428,12 @@ def stmt(s, side):
         raise Unsupported('with: ' + ast.unparse(s.items[0].context_expr))
     if isinstance(s, (ast.Assign, ast.Expr, ast.AugAssign)) and mentions_list(s) \
             and not any(isinstance(n, ast.Await) for n in ast.walk(s)):
+        if isinstance(s, ast.Assign) and isinstance(s.value, ast.IfExp) and len(s.targets) == 1:
+            # `v = A if c else B` is `if c: v = A else: v = B`
+            mk = lambda val: ast.copy_location(ast.Assign(targets=s.targets, value=val), s)   # noqa: E731
+            node = ast.copy_location(ast.If(test=s.value.test, body=[mk(s.value.body)], orelse=[mk(s.value.orelse)]), s)
+            ast.fix_missing_locations(node)
+            return stmt(node, side)
         return list_stmt(s, side)
     if isinstance(s, (ast.Assign, ast.Expr, ast.AnnAssign)):
         val = s.value
